@@ -1,6 +1,11 @@
 from kernels import K
 
+# ---------------------------------------------------------------- C01
 _MATTUS = ['src/Matrix/AMatrix.cpp', 'src/Matrix/AMatrixDense.cpp', 'src/Matrix/AMatrixSquare.cpp',
-           'src/Matrix/MatrixSquareSymmetric.cpp', 'src/Matrix/MatrixRectangular.cpp', 'src/Matrix/MatrixSquareGeneral.cpp', 'src/Basic/AStringable.cpp', 'src/Basic/ASerializable.cpp']
-K('C01.probe', property='C01', engine='symex', harness='C01/probe.cpp', entry='k_probe', tus=_MATTUS,
-  bounds={'quick': 'probe'}, validate={'quick': 3}, what='probe', out='', assumptions=[], stubs=[])
+           'src/Matrix/MatrixSquareSymmetric.cpp', 'src/Matrix/MatrixRectangular.cpp', 'src/Matrix/MatrixSquareGeneral.cpp',
+           'src/Basic/AStringable.cpp', 'src/Basic/ASerializable.cpp']
+_KSTUS = ['src/Estimation/KrigingSystem.cpp', 'src/Basic/Utilities.cpp', 'src/Basic/VectorHelper.cpp', 'src/Enum/Enums.cpp'] + _MATTUS
+
+K('C01.a.t', property='C01', engine='symex', harness='C01/system.cpp', entries=['k_flag', 'k_lhs', 'k_iso', 'k_rhs'], tus=_KSTUS,
+  defines={'all': {'VF_NECH': 2, 'VF_NVAR': 2, 'VF_NFEQ': 1, 'VF_NDIM': 2, 'VF_NFEX': 1}},
+  bounds={'quick': 'probe'}, validate={'quick': 10}, what='probe', out='', assumptions=[], stubs=[])
